@@ -283,6 +283,22 @@ def obligations_lookup(rep, repo, m):
             else:
                 rep.violation("O3.range-guard", cons, "upper",
                               f"requests above the largest supported {x} are not rejected", where)
+        # every exit of the branch passes through the look-up: an earlier return is accepted only as the exact hit
+        # (`if x in T: return <matching pair>`); any other shortcut is outside what this rule can judge
+        want = (("degree", f"{vd}[degree]") if x == "degree" else (f"{vn}[size]", "size"))
+        for s in bbody:
+            for sub in ast.walk(s):
+                if not isinstance(sub, ast.If):
+                    continue
+                for r_ in [z for b_ in sub.body + sub.orelse for z in ast.walk(b_) if isinstance(z, ast.Return)]:
+                    if r_ is ret:
+                        continue
+                    exact = norm(sub.test) in (f"{x} in {T}", f"{x} in {keys_var}", f"{x} in {T}.keys()") and r_ in sub.body and \
+                        isinstance(r_.value, ast.Tuple) and tuple(norm(z) for z in r_.value.elts) == want
+                    if not exact:
+                        raise AnalysisError(f"unrecognised idiom in {cons}: `{norm(r_)[:60]}` under `{norm(sub.test)[:50]}` leaves the "
+                                            f"branch without passing through the lower-bound look-up; cannot tell whether it "
+                                            f"returns the smallest supported {x} not below the request")
         # returned pair
         if ret is None or not isinstance(ret.value, ast.Tuple) or len(ret.value.elts) != 2:
             raise AnalysisError(f"unrecognised idiom in {cons}: branch does not return a pair")
